@@ -19,7 +19,13 @@ REJECT = {
     "units": [("reject_main.cpp", []), ("reject_other.cpp", [])] + [("reject_simple.cpp", ["-DVK_LABEL=%d" % k]) for k in (0, 1, 5, 6)],
 }
 
-ENGINES = {"hist": HIST, "reject": REJECT}
+SHAPE = {
+    "name": "shape",
+    "units": [("shape_main.cpp", []), ("shape_other.cpp", [])] + [("shape_simple.cpp", ["-DVK_LABEL=%d" % k]) for k in (0, 1, 5, 6)] +
+             [("shape_wctor.cpp", ["-DVK_WHICH=0"], "optional"), ("shape_wctor.cpp", ["-DVK_WHICH=1"], "optional")],
+}
+
+ENGINES = {"hist": HIST, "reject": REJECT, "shape": SHAPE}
 
 ASSUME_COMMON = [
     "the g++ 12 / libstdc++ toolchain, AddressSanitizer and UBSan report what they are documented to report",
@@ -146,6 +152,63 @@ def run_c07(prop, tier, seed):
         "the cell list in harness/reject_*.cpp was written from the public headers; an entry point added later is not covered until it is listed"], floors, t0)
 
 
+SHAPE_PLAN = {
+    "C08": dict(level="exploration",
+                rule="every directed graph with loops on n<=3 vertices (n<=4 thorough: 65536 more) and every undirected graph with loops on n<=4 (n<=5 thorough), "
+                     "each built in 5 insertion orders/orientations (as enumerated, reversed, 3 seeded shuffles), plus seeded random graphs on 5-12 vertices with "
+                     "isolated prefixes/suffixes; on each, for all eight classes (labels NoLabel,int,string,struct): vertex range-for = 0..n-1; edges() by pre-increment, "
+                     "post-increment (returned value = old position) and range-for give one sequence, twice; begin()==end() iff no edge; multiset of edges = model; "
+                     "getInDegrees, getAdjacencyMatrix, getReversedGraph, getDirectedGraph, undirected-from-directed, text and binary writers and operator<< return "
+                     "normally and agree with the model. distinct_nontrivial = distinct (graph, insertion order) pairs with at least one vertex",
+                floors={"graphs_with_zero_vertices": 10, "graphs_without_edges": 40, "graphs_from_exhaustive_enumeration": 8000, "edge_iteration_steps": 100000,
+                        "files_written": 10000, "conversions_checked": 5000}),
+    "C09": dict(level="exploration",
+                rule="graph space of C08 x unique label per edge x label kinds NoLabel,int,string,struct: getReversedGraph vs independently built reverse (+ labels, "
+                     "reverse twice == g); getDirectedGraph vs independent build (+labels) and u->d->u == u; undirected-from-directed pairs and label membership; each "
+                     "of the eight classes constructed from vector, list, deque, forward_list, set and multiset of (labelled / weighted / multi) edges incl. a repeated "
+                     "entry, compared with adding one at a time (size = 1+max index, 0 when empty); copy construction / assignment independent of the source. The "
+                     "weighted edge-list constructors are compiled as separate units: failing to instantiate is reported as a violation",
+                floors={"conversions_checked": 8000, "constructor_checks": 60000, "copy_checks": 8000, "label_reads": 50000, "weighted_constructor_checks": 5000}),
+    "C10": dict(level="exploration",
+                rule="for every directed graph on n<=3 (<=4 thorough) and undirected graph on n<=4 (<=5 thorough) and random graphs on 4-6 (4-7) vertices, with unique "
+                     "labels (int,string,struct, and unlabelled): ALL 2^n vertex subsets S, inserted into the unordered_set in two orders. getSubgraph: size n, exactly "
+                     "the induced edges with labels. getSubgraphWithRemap: |S| vertices, map domain = S, image = 0..|S|-1 injective, pulled-back edges and labels = "
+                     "induced subgraph. distinct_nontrivial = distinct (graph, order) pairs; every one is checked against all its subsets",
+                floors={"subsets_checked": 100000, "remap_bijection_checks": 100000, "label_reads": 100000}),
+}
+
+
+def run_shape(prop, tier, seed):
+    import subprocess
+    t0 = time.time()
+    plan = SHAPE_PLAN[prop]
+    binary = V.build_engine(SHAPE, "asan")
+    total = int(subprocess.run([binary, "--prop", prop, "--tier", tier, "--mode", "count"], capture_output=True, text=True, env=dict(os.environ, **V.SAN_ENV)).stdout.strip())
+    res = V.run_sharded(prop, binary, [], total, seed, tier, V.NCPU, 900 if tier == "quick" else 10800, replay_dir(prop), tag="shape-" + prop)
+    if prop == "C09":
+        for f in V.build_failures(binary):
+            cls = "DirectedWeightedGraph" if "-DVK_WHICH=0" in f["defs"] else "UndirectedWeightedGraph"
+            key = cls + "/edge-list-constructor/uninstantiable"
+            os.makedirs(replay_dir(prop), exist_ok=True)
+            rp = os.path.join(replay_dir(prop), key.replace("/", "_") + ".json")
+            with open(rp, "w") as fh:
+                json.dump({"property": prop, "key": key, "what": "harness/%s %s does not compile against the current headers: the documented constructor "
+                           "%s(container of LabeledEdge<EdgeWeight>) cannot be instantiated" % (f["src"], " ".join(f["defs"]), cls), "compiler_output": f["output"]}, fh, indent=1)
+            res.viols.append({"key": key, "detail": f["output"][-1500:], "replay": rp, "case": 0, "count": 1})
+    c = res.counters
+    coverage = {
+        "evaluations": int(total),
+        "distinct_nontrivial": res.n_distinct(),
+        "rule": plan["rule"],
+        "samples": sample_list(res.samples),
+        "exhaustive_subspaces": "directed n<=%d, undirected n<=%d enumerated completely" % (c.get("exhaustive_directed_max_n_max", 0), c.get("exhaustive_undirected_max_n_max", 0)),
+        "counters": {k: v for k, v in sorted(c.items())},
+        "build": "g++ -O1 -fsanitize=address,undefined -fno-sanitize-recover=all -D_GLIBCXX_ASSERTIONS",
+        "exhaustive": False,
+    }
+    return V.conclude(prop, tier, seed, plan["level"], res, coverage, ASSUME_COMMON, plan["floors"], t0)
+
+
 TITLES = {}
 for line in open(os.path.join(V.VERIF, "properties.jsonl")):
     d = json.loads(line)
@@ -156,6 +219,8 @@ for p in HIST_PLAN:
     PROPS[p] = {"title": TITLES[p], "run": run_hist, "engines": [("hist", "asan")]}
 
 
+for p in SHAPE_PLAN:
+    PROPS[p] = {"title": TITLES[p], "run": run_shape, "engines": [("shape", "asan")]}
 PROPS["C07"] = {"title": TITLES["C07"], "run": run_c07, "engines": [("reject", "asan")]}
 
 
